@@ -16,7 +16,8 @@ Proof.
   destruct (flushing s0).
   - unfold wait. destruct (match pending (complete s0 wo) with Some r => r | None => true end).
     + intros [= <- _ _]. cbn. repeat split; discriminate.
-    + intros [= _ _ ? _]; discriminate.
+    + unfold err_resp. destruct (perr (complete s0 wo)); [destruct (flushing (complete s0 wo)) as [[? ?]|]|];
+        intros Hx; inversion Hx.
   - intros [= <- _ _]. cbn. repeat split; discriminate.
 Qed.
 
@@ -48,7 +49,8 @@ Proof.
   set (s1c := complete s1 wo2) in *.
   assert (Hsc : shape s1c) by apply shape_complete, Hs1.
   assert (Hpend : pending s1c = Some true).
-  { destruct (pending s1c) as [[|]|] eqn:Ep; [reflexivity|discriminate|].
+  { destruct (pending s1c) as [[|]|] eqn:Ep; [reflexivity| |].
+    { exfalso. unfold err_resp in Hok. destruct (perr s1c); [destruct (flushing s1c) as [[? ?]|]|]; discriminate. }
     exfalso. apply (sh_done _ Hsc); [|apply complete_inflight|exact Ep].
     destruct (complete_frame s1 wo2) as (_ & _ & _ & F4 & _). fold s1c in F4. rewrite F4, Efl; discriminate. }
   assert (Hcl : closed (run P ops') = false).
